@@ -164,18 +164,27 @@ theorem transientLoop_inv (h : Hooks) (hok : HooksOK h) (fl : Flavor) (m : Machi
         · exact hl
 
 -- ASYNC ------------------------------------------------------------------------------------------------
-theorem asyncStep_inv (m : Machine) (u : UEnv) (e : Ev) (hwf : WF m.root) (hi : InitOK m.root)
-    (hsel : SelSound m) (s : St) (hl : Legal m.root s.cfg) : Legal m.root (asyncStep m u e s).cfg := by
+theorem asyncChainEnd_cfg (b : Nat) (s : St) : (asyncChainEnd b s).cfg = s.cfg := by
+  unfold asyncChainEnd; split <;> rfl
+
+theorem asyncProcess_inv (m : Machine) (u : UEnv) (e : Ev) (hwf : WF m.root) (hi : InitOK m.root)
+    (hsel : SelSound m) (s : St) (hl : Legal m.root s.cfg) : Legal m.root (asyncProcess m u e s).cfg := by
+  unfold asyncProcess
+  have hl' : Legal m.root (emit ("#recv:" ++ e.type) s).cfg := hl
+  have h1 := processEvent_inv (hooksAsync u m) (hooksAsync_ok u m) .async m u e hwf hi hsel _ hl'
+  have h2 := transientLoop_inv (hooksAsync u m) (hooksAsync_ok u m) .async m u hwf hi hsel m.maxIterations _ h1
+  simp only
+  rw [asyncChainEnd_cfg]
+  split <;> exact h2
+
+theorem asyncStep_inv (m : Machine) (u : UEnv) (q : QEv) (hwf : WF m.root) (hi : InitOK m.root)
+    (hsel : SelSound m) (s : St) (hl : Legal m.root s.cfg) : Legal m.root (asyncStep m u q s).cfg := by
   unfold asyncStep
   split
-  · exact hl
-  · have hl' : Legal m.root (emit ("#recv:" ++ e.type) s).cfg := hl
-    have h1 := processEvent_inv (hooksAsync u m) (hooksAsync_ok u m) .async m u e hwf hi hsel _ hl'
-    have h2 := transientLoop_inv (hooksAsync u m) (hooksAsync_ok u m) .async m u hwf hi hsel m.maxIterations _ h1
-    simp only
-    split
-    · exact h2
-    · split <;> exact h2
+  · split
+    · exact hl
+    · exact asyncProcess_inv m u q.ev hwf hi hsel (asyncPurge s) hl
+  · exact asyncProcess_inv m u q.ev hwf hi hsel s hl
 
 theorem asyncDrain_inv (m : Machine) (u : UEnv) (hwf : WF m.root) (hi : InitOK m.root)
     (hsel : SelSound m) : ∀ (fuel : Nat) (s : St), Legal m.root s.cfg →
@@ -191,7 +200,7 @@ theorem asyncDrain_inv (m : Machine) (u : UEnv) (hwf : WF m.root) (hi : InitOK m
     · split
       · exact hl
       · rename_i q rest _
-        exact ih _ (asyncStep_inv m u q.ev hwf hi hsel { s with queue := rest } hl)
+        exact ih _ (asyncStep_inv m u q hwf hi hsel { s with queue := rest } hl)
 
 theorem asyncSend_inv (m : Machine) (u : UEnv) (e : Ev) (hwf : WF m.root) (hi : InitOK m.root)
     (hsel : SelSound m) (s : St) (hl : Legal m.root s.cfg) : Legal m.root (asyncSend m u e s).cfg := by
@@ -260,9 +269,48 @@ theorem initialEntry_legal (h : Hooks) (hok : HooksOK h) (fl : Flavor) (m : Mach
     (an error was raised: `err` is set) or the configuration is legal -/
 def StartOK (m : Machine) (s : St) : Prop := s.err ≠ none ∨ Legal m.root s.cfg
 
+/-- a run loop over an interpreter that is not running does nothing -/
+theorem asyncDrain_of_not_running (m : Machine) (u : UEnv) (n : Nat) {s : St} (h : s.status ≠ "running") :
+    asyncDrain m u n s = s := by
+  cases n with
+  | zero => simp [asyncDrain, h]
+  | succ n => simp [asyncDrain, h]
+
+/-- `asyncStart` in one piece: entry, settling, then the run loop (which does nothing unless the
+    interpreter is still running — that is the `if self.status == "running": create_task(...)`) -/
+theorem asyncStart_phases (m : Machine) (u : UEnv) (s : St) :
+    asyncStart m u s =
+      if (asyncStartEntered m u s).err.isSome then { asyncStartEntered m u s with status := "stopped" }
+      else if (asyncStartSettled m u s).err.isSome then { asyncStartSettled m u s with status := "stopped" }
+      else asyncDrain m u (asyncFuel m) (asyncStartSettled m u s) := by
+  unfold asyncStart asyncStartSettle
+  by_cases h1 : (asyncStartEntered m u s).err.isSome = true
+  · simp only [h1, if_true]
+    rw [if_neg (show ¬ ("stopped" : String) = "running" by decide)]
+  · simp only [h1, Bool.false_eq_true, if_false]
+    by_cases h2 : (asyncStartSettled m u s).err.isSome = true
+    · simp only [h2, if_true]
+      rw [if_neg (show ¬ ("stopped" : String) = "running" by decide)]
+    · simp only [h2, Bool.false_eq_true, if_false]
+      split
+      · rfl
+      · rename_i h; exact (asyncDrain_of_not_running m u _ h).symm
+
+/-- the same with the two phases spelled out -/
+theorem asyncStart_unfold (m : Machine) (u : UEnv) (s : St) :
+    asyncStart m u s =
+      (let s := { s with status := "running", ctx := m.ctx0 }
+       let (es, e) := startEntries m
+       let s := es.foldl (enterOne (hooksAsyncStart u m) .async m (some "___xstate_statemachine_init___")) s
+       let s := match e with | some err => s.fail err | none => s
+       if s.err.isSome then { s with status := "stopped" } else
+       let s := transientLoop (hooksAsyncStart u m) .async m u m.maxIterations s
+       if s.err.isSome then { s with status := "stopped" } else
+       asyncDrain m u (asyncFuel m) s) := asyncStart_phases m u s
+
 theorem asyncStart_ok (m : Machine) (u : UEnv) (hwf : WF m.root) (hi : InitOK m.root)
     (hk : m.root.kind ≠ .history) (hsel : SelSound m) : StartOK m (asyncStart m u {}) := by
-  unfold asyncStart
+  rw [asyncStart_unfold]
   obtain ⟨he, _⟩ := startEntries_eq m hwf hi
   simp only [he]
   generalize hs1 : (startEntries m).1.foldl
